@@ -3,5 +3,6 @@ CONSTANTS HW = 7
           Anchors = {1, 2}
           NMax = 6
           GenMod = 16
+          TPad = 2
 INIT Init
 NEXT EvalGen
